@@ -109,6 +109,10 @@ pub mod stdspecs {
         forall|x: u8, r: bool| #[trigger] call_ensures(p, (&x,), r) ==> r == (x == c)
     }
 
+    // ---- Vec::shrink_to_fit: contents unchanged -----------------------------------------------------------------
+    pub assume_specification<T, A: core::alloc::Allocator>[ Vec::<T, A>::shrink_to_fit ](v: &mut Vec<T, A>)
+        ensures final(v)@ == old(v)@;
+
     // ---- core::str::from_utf8 ---------------------------------------------------------------------------------
     #[verifier::external_type_specification]
     #[verifier::external_body]
